@@ -513,7 +513,9 @@ namespace
 
 	  const char *fn = dwarf_filesrc (files, uval, nullptr, nullptr);
 	  if (fn == nullptr)
-	    throw_libdw ();
+	    // dwarf_filesrc leaves dwarf_errno alone when the index is
+	    // out of range, and throw_libdw insists on an error code.
+	    throw std::runtime_error ("invalid DWARF: no such file in the file table");
 
 	  return pass_single_value (std::make_unique <value_str> (fn, 0));
 	}
